@@ -271,7 +271,7 @@ fn shuffled_layout_strategy() -> impl Strategy<Value = Layout> {
 
 /// Layouts with chunks above 1 MiB (and above tokio's 2 MiB file buffer) that move by less than their own size: the
 /// executor has to behave like memmove for a chunk whose destination overlaps its own old location.
-fn big_layout_strategy() -> impl Strategy<Value = Layout> {
+pub fn big_layout_strategy() -> impl Strategy<Value = Layout> {
     (
         prop::collection::vec(prop_oneof![2 => 1u32..=5000, 3 => 1_048_577u32..=3_200_000], 3..=5),
         1u32..=70_000,
